@@ -8,6 +8,16 @@ TRUSTED_BASE = [
 ]
 
 TABLE = {
+    "C16": {
+        "obligations": ["C16_duration", "C16_duration_invalid", "C16_consumer_set", "C16_consumer_frame", "C16_last_wins_crc",
+                        "C16_last_wins_client_id", "C16_default_kept", "C16_consumer_perm", "C16_configure",
+                        "C16_configure_invalid_duration", "C16_from_client", "C16_producer_frame", "C16_with_partitioner_keeps",
+                        "C16_producer_perm"],
+        "what": "Theorems over builders as lists of calls folded over the builder record: every call sets its own field and leaves all others alone (frame), the last call for an option wins over any prefix and suffix, an option never set keeps the default / the pre-configured client's value, any two permutations of calls setting distinct options build the same builder (consumer and producer, via Perm.foldl_eq'), with_partitioner keeps client id / acks / timeout / compression, `configure` puts exactly the builder's values in force on the client (CRC validation included) and a duration is accepted iff its milliseconds fit i32, then exact, never wrapped. Correspondence + judge: every option x boundary values x random permutations of <= 6 builder calls (options set twice, with_partitioner at any position) x from hosts / from a pre-configured client; observables: getters, client id in every header, fetch min bytes / max wait / max bytes, produce acks / timeout / codec, acceptance of a bad-CRC message, reconnects at idle time-out 0.",
+        "rule": "scenario = cluster + (optionally a client pre-configured by a random subset of setters) + consumer or producer builder with 0-6 option calls in random order (durations incl. values beyond i32 ms) + get_config + poll x2 over a log with a bad-CRC message / send_all; non-trivial = a request reached a broker; distinct = distinct (operation, result) sequences",
+        "assumptions": ["idle time-outs are exercised at 0 (reconnect on every use) and at values far above the run time (no reconnect); TLS security config is not exercised",
+                        "assignment calls (with_topic / with_topic_partitions) are covered by C19"],
+    },
     "C20": {
         "obligations": ["C20_contains", "C20_find_known", "C20_fetch_mentions", "C20_produce_unknown", "C20_produce_local_failure",
                         "C20_commit_local_failure", "C20_after_reset", "C20_offsets_unknown_topic"],
